@@ -7,6 +7,7 @@ import (
 	"fmt"
 	"io"
 	"sync"
+	"sync/atomic"
 	"time"
 
 	"github.com/hashicorp/serf/serf"
@@ -42,6 +43,9 @@ type peer struct {
 	stream *stream
 	// synced is set once the full state has been queued for the current session.
 	synced bool
+	// ackedNext is the id following the highest event id the remote node has acknowledged in the
+	// current session. A remote node that asks to resume below it has lost the session.
+	ackedNext uint64
 }
 
 type stream struct {
@@ -49,6 +53,7 @@ type stream struct {
 	conn    *grpc.ClientConn
 	client  Federation_EventStreamClient
 	close   chan struct{}
+	onAck   func(id uint64)
 	errOnce sync.Once
 	err     error
 	wg      sync.WaitGroup
@@ -240,8 +245,10 @@ func (p *peer) initStream(client FederationClient, conn *grpc.ClientConn) (s *st
 	}
 	log.Info("handshake succeed", zap.String("remote_node", p.member.Name), zap.Bool("clean_start", sh.CleanStart))
 	// A ServerHello with CleanStart may get lost on its way: the retried handshake is then answered
-	// with CleanStart == false although the full state has never been queued.
-	if sh.CleanStart || (!p.synced && sh.NextEventId == 0) {
+	// with CleanStart == false although the full state has never been queued, or although the remote
+	// node has started a new session and forgotten what it had acknowledged.
+	if sh.CleanStart || (!p.synced && sh.NextEventId == 0) || sh.NextEventId < atomic.LoadUint64(&p.ackedNext) {
+		atomic.StoreUint64(&p.ackedNext, 0)
 		p.queue.clear()
 		// sync full state
 		p.fed.localSubStore.Lock()
@@ -280,6 +287,11 @@ func (p *peer) initStream(client FederationClient, conn *grpc.ClientConn) (s *st
 		conn:   conn,
 		client: c,
 		close:  make(chan struct{}),
+		onAck: func(id uint64) {
+			if next := id + 1; next > atomic.LoadUint64(&p.ackedNext) {
+				atomic.StoreUint64(&p.ackedNext, next)
+			}
+		},
 	}
 	p.stream = s
 	return s, nil
@@ -351,6 +363,9 @@ func (s *stream) readLoop() {
 				return
 			}
 			s.queue.ack(resp.EventId)
+			if s.onAck != nil {
+				s.onAck(resp.EventId)
+			}
 			if ce := log.Check(zapcore.DebugLevel, "event acked"); ce != nil {
 				ce.Write(zap.Uint64("id", resp.EventId))
 			}
